@@ -223,6 +223,28 @@ theorem step_spec {s : St} {j : J} (op : Op) (hgi : GInv s) (hr : Rel s none j) 
   | snoopBy k =>
     simp only [step, judgeFrom_nil]
     exact ⟨⟨hgi.inv.of_eq rfl rfl rfl rfl rfl, hgi.want⟩, ⟨hr.bad, hr.dead, hr.q⟩⟩
+  | writeQ v d =>
+    simp only [step]
+    exact addMessage_spec v d hgi hr
+  | closeQ =>
+    simp only [step]
+    by_cases hc : s.closed = true
+    · rw [if_pos hc]; exact ⟨hgi, hr⟩
+    · rw [if_neg hc]
+      obtain ⟨a, _, c⟩ := flushMsg_top hgi hr
+      refine ⟨⟨a.inv.of_eq rfl rfl rfl rfl rfl, fun hx => by simp [St.gone] at hx⟩, ?_⟩
+      rw [judgeFrom_append]
+      simp only [judgeFrom_cons, judgeFrom_nil, jstep]
+      exact ⟨c.bad, by simp [St.gone], fun hx => by simp [St.gone] at hx⟩
+  | showSt =>
+    simp only [step]
+    exact same
+  | react rs =>
+    simp only [step, judgeFrom_nil]
+    exact ⟨⟨hgi.inv.of_eq rfl rfl rfl rfl rfl, hgi.want⟩, ⟨hr.bad, hr.dead, hr.q⟩⟩
+  | popReact =>
+    simp only [step, judgeFrom_nil]
+    exact ⟨⟨hgi.inv.of_eq rfl rfl rfl rfl rfl, hgi.want⟩, ⟨hr.bad, hr.dead, hr.q⟩⟩
 
 theorem runFrom_spec : ∀ (ops : List Op) (s : St) (j : J), GInv s → Rel s none j →
     GInv (runFrom s ops).1 ∧ Rel (runFrom s ops).1 none (judgeFrom j (runFrom s ops).2) := by
